@@ -171,3 +171,10 @@ Definition diff_table (c : case) (name : str) : list (list value * list value) :
       end
   | _, _ => []
   end.
+
+(** a full reply row from named cells (for hand written examples) *)
+Definition row_of (cols : list column) (cells : list (str * raw)) : list raw :=
+  map (fun c => match find (fun p => str_eqb (fst p) (c_name c)) cells with
+                | Some p => snd p
+                | None => raw_default (c_type c)
+                end) cols.
